@@ -17,10 +17,31 @@ def secs(ms):
 
 
 # ---------------------------------------------------------------------------------------------- rows
-def peer_row(ep, ver):
+DEFAULT_PORT = 9042
+
+
+def parse_ep(k):
+    """endpoint key: 3 or '3' (default native port) or '3:9043'"""
+    k = str(k)
+    if ':' in k:
+        a, p = k.split(':')
+        return int(a), int(p)
+    return int(k), DEFAULT_PORT
+
+
+def ep_key(a, p):
+    return str(a) if p == DEFAULT_PORT else '%d:%d' % (a, p)
+
+
+def norm_hosts(hosts):
+    return {ep_key(*parse_ep(k)): st for k, st in hosts.items()}
+
+
+def peer_row(epk, ver):
+    ep, port = parse_ep(epk)
     a = addr(ep)
     return {'peer': a, 'peer_port': 7000, 'host_id': H.version_uuid(1000 + ep), 'rpc_address': a,
-            'native_transport_address': a, 'native_address': a, 'native_port': 9042,
+            'native_transport_address': a, 'native_address': a, 'native_port': port,
             'data_center': 'dc1', 'rack': 'r1', 'release_version': '4.0.0', 'tokens': ['%d' % ep],
             'schema_version': None if ver is None else H.version_uuid(ver)}
 
@@ -76,8 +97,8 @@ def set_hosts(cl, hosts):
     md = cl.metadata
     with md._hosts_lock:
         md._hosts.clear()
-        for ep, st in sorted(hosts.items(), key=lambda kv: int(kv[0])):
-            h = Host(DefaultEndPoint(addr(int(ep))), SimpleConvictionPolicy, 'dc1', 'r1')
+        for (ep, port), st in sorted((parse_ep(k), v) for k, v in hosts.items()):
+            h = Host(DefaultEndPoint(addr(ep), port), SimpleConvictionPolicy, 'dc1', 'r1')
             h.is_up = UP[st]
             h.release_version = '4.0.0'
             md._hosts[h.endpoint] = h
@@ -290,12 +311,17 @@ def run_future(case):
         r.a_call = lambda: orig_wait(r.conn)
         session = FakeSession(cl)
         rf = C.ResponseFuture(session, None, None, None, host=object())
+        at_delivery = []
+        # what an application callback (and a result() waiter woken by the same event) sees when the request is delivered
+        rf.add_callbacks(lambda res: at_delivery.append(('ok', rf.is_schema_agreed)),
+                         lambda exc: at_delivery.append(('err', rf.is_schema_agreed)))
         msg = ResultMessage(RESULT_KIND_SCHEMA_CHANGE)
         msg.schema_change_event = dict(SCHEMA_EVENT)
         if case.get('cluster_shutdown'):
             cl.is_shutdown = True
         rf._set_result(None, r.conn, None, msg)
         return {'is_schema_agreed': bool(rf.is_schema_agreed), 'agreed_raw': repr(rf.is_schema_agreed),
+                'at_delivery': [[k, bool(v)] for k, v in at_delivery],
                 'refreshed': len(refreshed), 'resubmitted': session.submitted[1:],
                 'final_set': bool(rf._event.is_set() and rf._final_exception is None and rf._final_result is None),
                 'events': r.events, 'wait': waits[0] if waits else None, 'nwaits': len(waits),
@@ -336,10 +362,11 @@ def reported_versions(hosts, snap):
     vs = set()
     if snap['local'] not in ('norow', None):
         vs.add(snap['local'])
+    hosts = norm_hosts(hosts)
     for ep, ver in snap['peers']:
         if ver is None:
             continue
-        st = hosts.get(str(ep), hosts.get(ep))
+        st = hosts.get(ep_key(*parse_ep(ep)))      # matched by (address, native_port)
         if st is not None and st != 'down':
             vs.add(ver)
     return vs
@@ -404,6 +431,17 @@ def check_future(case, obs):
     if reached and not obs['is_schema_agreed'] and not case.get('refresh_raises'):
         key = 'future.agreement-not-recorded' + ('.schema-metadata-disabled' if not case.get('meta_enabled', True) else '')
         bad.append((key, 'agreement was reached at poll %d but is_schema_agreed is %s' % (obs['consumed'] - 1, obs['agreed_raw'])))
+    deliv = obs.get('at_delivery') or []
+    if len(deliv) != 1 or deliv[0][0] != 'ok':
+        bad.append(('future.delivery', 'the schema-change request was delivered %r (expected one successful delivery)' % (deliv,)))
+    else:
+        seen = deliv[0][1]
+        if seen and not reached:
+            bad.append(('future.agreed-without-agreement.at-delivery', 'completion callback saw is_schema_agreed True, wait outcome %r' % (w,)))
+        if reached and not seen and not case.get('refresh_raises') and obs['is_schema_agreed']:
+            bad.append(('future.agreement-not-recorded.at-delivery',
+                        'agreement was reached at poll %d and is recorded afterwards, but the completion callback (and any result() waiter) '
+                        'saw is_schema_agreed False' % (obs['consumed'] - 1)))
     if not obs['final_set']:
         bad.append(('future.no-final-result', 'the schema-change future was not completed with result None'))
     return bad
@@ -423,7 +461,7 @@ def zl(v):
 
 def g_hosts(hosts):
     m = {'up': 'Up', 'down': 'Down', 'none': 'Unknown'}
-    return '[' + '; '.join('(%d, %s)' % (int(ep), m[st]) for ep, st in sorted(hosts.items(), key=lambda kv: int(kv[0]))) + ']'
+    return '[' + '; '.join('((%d, %d), %s)' % (ep[0], ep[1], m[st]) for ep, st in sorted((parse_ep(k), v) for k, v in hosts.items())) + ']'
 
 
 def g_ver(v):
@@ -432,7 +470,11 @@ def g_ver(v):
 
 def g_snap(s):
     loc = 'None' if s['local'] == 'norow' else '(Some %s)' % g_ver(s['local'])
-    return '(Sn %s [%s])' % (loc, '; '.join('(%d, %s)' % (ep, g_ver(v)) for ep, v in s['peers']))
+    def row(ep, v):
+        a, p = parse_ep(ep)
+        # table row: native_port is present in peers_v2 only; rows on the default port are given without one (same endpoint)
+        return '(%d, %s, %s)' % (a, 'None' if p == DEFAULT_PORT else '(Some %d)' % p, g_ver(v))
+    return '(RSn %d %s [%s])' % (DEFAULT_PORT, loc, '; '.join(row(ep, v) for ep, v in s['peers']))
 
 
 def g_poll(p):
@@ -487,8 +529,9 @@ def g_cfg(case):
 def g_future_case(case, obs):
     env = '(Build_env %s %s %s %s)' % (g_bool(case.get('cluster_shutdown')), g_bool(case.get('cc_shutdown')),
                                       g_bool(case.get('meta_enabled', True)), g_bool(case.get('refresh_raises')))
-    seen = '(Build_future_seen %s %s %s %s %s %s)' % (
-        g_bool(obs['is_schema_agreed']), g_bool(obs['refreshed'] > 0), g_bool(bool(obs['resubmitted'])),
+    deliv = obs.get('at_delivery') or []
+    seen = '(Build_future_seen %s %s %s %s %s %s %s)' % (
+        g_bool(obs['is_schema_agreed']), ('(Some %s)' % g_bool(deliv[0][1])) if deliv else 'None', g_bool(obs['refreshed'] > 0), g_bool(bool(obs['resubmitted'])),
         g_bool(obs['final_set']), g_events(obs['events']), g_outcome(obs['wait']))
     return 'future_eqb (schema_change_path %s %s %s) %s' % (env, g_cfg(case), g_polls(case, obs['consumed']), seen)
 
